@@ -425,11 +425,16 @@ func (s *netSim) deliver(to int, kind string, raw []byte) {
 
 func (s *netSim) submitTx(v *vnode, tx *transaction.Transaction) {
 	var err error
+	// "already on chain" is relative to the receiving node's own chain (it may be behind)
+	onOwnChain := false
+	if _, hgt, gerr := v.n.BC.GetTransaction(tx.Hash()); gerr == nil && hgt != ^uint32(0) {
+		onOwnChain = true
+	}
 	if pv := sim.Recover(func() { err = v.n.BC.PoolTx(tx) }); pv != nil {
 		s.r.violate(pv)
 		return
 	}
-	if s.onChainResubmitted[tx.Hash()] && err == nil {
+	if s.onChainResubmitted[tx.Hash()] && onOwnChain && err == nil {
 		s.r.violate(sim.Violatef("c07-invalid-tx-pooled", "c07-invalid-tx-pooled/already-on-chain", "node %d pooled a transaction that is already on chain", v.idx))
 		return
 	}
